@@ -49,8 +49,10 @@ func genToken(t *rapid.T) string {
 		return stringToks[rapid.IntRange(0, len(stringToks)-1).Draw(t, "st")]
 	case k < 90:
 		return punct[rapid.IntRange(0, len(punct)-1).Draw(t, "pu")]
-	case k < 95:
+	case k < 94:
 		return rapid.StringN(1, 4, 8).Draw(t, "arbtok")
+	case k < 95:
+		return strings.Repeat("long", rapid.IntRange(100, 2000).Draw(t, "toklen"))
 	}
 	return []string{"\x00", "\xff", "\r", "\t", " ", " ", "\v"}[rapid.IntRange(0, 6).Draw(t, "bad")]
 }
@@ -106,6 +108,9 @@ func genSoupLine(t *rapid.T) string {
 
 func genSoup(t *rapid.T) soupCase {
 	n := rapid.IntRange(0, 10).Draw(t, "nlines")
+	if gen.Chance(t, 2, "manylines") {
+		n = rapid.IntRange(60, 200).Draw(t, "nlines2")
+	}
 	nl := "\n"
 	if gen.Chance(t, 12, "crlf") {
 		nl = "\r\n"
